@@ -61,7 +61,7 @@ func (f *Fetcher) exchangeKeys(ctx context.Context) error {
 	if f.QUIC.Enabled {
 		// every exchange starts from the defaults of its own connection, not
 		// from what an earlier exchange left behind
-		conn, data, err := dialQUIC(f.Log, f.QUIC.LocalAddr, f.QUIC.RemoteAddr, f.QUIC.DaemonAddr, &f.TLSConfig)
+		conn, data, err := dialQUIC(ctx, f.Log, f.QUIC.LocalAddr, f.QUIC.RemoteAddr, f.QUIC.DaemonAddr, &f.TLSConfig)
 		if err != nil {
 			return err
 		}
@@ -86,7 +86,7 @@ func (f *Fetcher) exchangeKeys(ctx context.Context) error {
 		var err error
 		var conn *tls.Conn
 		serverAddr := net.JoinHostPort(f.TLSConfig.ServerName, f.Port)
-		conn, f.data, err = dialTLS(serverAddr, &f.TLSConfig)
+		conn, f.data, err = dialTLS(ctx, serverAddr, &f.TLSConfig)
 		if err != nil {
 			return err
 		}
@@ -132,8 +132,15 @@ func (f *Fetcher) exchangeKeys(ctx context.Context) error {
 func (f *Fetcher) FetchData(ctx context.Context) (Data, error) {
 	f.mu.Lock()
 	defer f.mu.Unlock()
+	// a caller whose round is over (it may have waited for the exchange of
+	// another caller) neither spends a cookie on a request it cannot send nor
+	// starts an exchange that cannot complete
+	err := ctx.Err()
+	if err != nil {
+		return Data{}, err
+	}
 	if len(f.data.Cookie) == 0 {
-		err := f.exchangeKeys(ctx)
+		err = f.exchangeKeys(ctx)
 		if err != nil {
 			// keep nothing of a failed exchange: cookies received before the
 			// failure must not be used with keys that were never exported
@@ -152,6 +159,12 @@ func (f *Fetcher) StoreCookie(cookie []byte) {
 	defer f.mu.Unlock()
 	if len(cookie) > MaxCookieLen {
 		// cannot be sent in a request later on
+		return
+	}
+	if len(f.data.C2sKey) == 0 || len(f.data.S2cKey) == 0 {
+		// the keys the cookie belongs to are gone (a failed exchange in
+		// between): a cookie without keys cannot be used, and a pool that is
+		// not empty would keep the next request from exchanging keys
 		return
 	}
 	f.data.Cookie = append(f.data.Cookie, cookie)
